@@ -224,6 +224,9 @@ func (fc *FnCtx) specialCall(ins ssa.Instruction, callee *ssa.Function, cc *ssa.
 			return true
 		}
 	}
+	if fc.protoGetter(ins, callee, cc, args, setResult) {
+		return true
+	}
 	for _, p := range nonNilErrorCtors {
 		if strings.HasPrefix(name, p) && callee.Signature.Results().Len() == 1 {
 			model("error constructors return a non-nil error: " + p)
@@ -261,3 +264,58 @@ func (fc *FnCtx) splitModel(ins ssa.Instruction, s Val, sep string, setResult fu
 	setResult([]Val{{t: v, ty: types.NewSlice(tString)}})
 }
 
+
+var baseMsgGetters = map[string]string{"BeginTs": "BeginTimestamp", "EndTs": "EndTimestamp", "HashKeys": "HashValues", "Position": "MsgPosition"}
+
+// protoGetter models generated protobuf getters `func (x *T) GetF() F { if x != nil { return x.F }; return zero }`
+// and the trivial accessors of msgstream.BaseMsg, for external functions without a body.
+func (fc *FnCtx) protoGetter(ins ssa.Instruction, callee *ssa.Function, cc *ssa.CallCommon, args []Val, setResult func([]Val)) bool {
+	g := fc.g
+	if callee.Blocks != nil || callee.Signature.Recv() == nil || callee.Signature.Params().Len() != 0 || callee.Signature.Results().Len() != 1 {
+		return false
+	}
+	pt, ok := callee.Signature.Recv().Type().Underlying().(*types.Pointer)
+	if !ok {
+		return false
+	}
+	st, ok := pt.Elem().Underlying().(*types.Struct)
+	if !ok {
+		return false
+	}
+	name := callee.Name()
+	field := ""
+	if strings.HasPrefix(name, "Get") {
+		field = name[3:]
+	}
+	if strings.HasSuffix(types.TypeString(pt.Elem(), nil), "msgstream.BaseMsg") {
+		if f, ok := baseMsgGetters[name]; ok {
+			field = f
+		}
+	}
+	if field == "" {
+		return false
+	}
+	rt := callee.Signature.Results().At(0).Type()
+	for i := 0; i < st.NumFields(); i++ {
+		if st.Field(i).Name() == field && types.Identical(st.Field(i).Type(), rt) {
+			g.trusted["built-in model: generated protobuf getters (*T).GetF() = (x == nil ? zero : x.F) and msgstream.BaseMsg BeginTs/EndTs/Position accessors"] = true
+			var t string
+			if l, ok := fc.locs[cc.Args[0]]; ok && l.kind != "cell" {
+				// receiver is the address of a struct embedded by value: read the field of the nested value
+				whole := fc.loadLoc(l, pt.Elem())
+				t = fmt.Sprintf("(%s %s)", g.sorts.structSel(pt.Elem(), i), whole)
+			} else {
+				k := g.fieldKey(pt.Elem(), i)
+				t = fmt.Sprintf("(ite (= %s 0) %s (select %s %s))", args[0].t, g.sorts.zero(rt), g.get(fc.cur, k), args[0].t)
+			}
+			n := g.def(fc.prefix+"get."+field, g.sortOf(rt), t)
+			if rc := g.sorts.rangeConstraint(rt, n); rc != "" {
+				fc.assume(rc, "range")
+			}
+			fc.boundRefs(rt, n)
+			setResult([]Val{{t: n, ty: rt}})
+			return true
+		}
+	}
+	return false
+}
